@@ -89,6 +89,7 @@ type wireOp struct {
 	// custom payload before protocol 4); it must fail on the client, nothing of it is sent
 	inexpressible bool
 	why           string // what it asks for, if not a custom payload
+	release       bool   // Query.Release() when the operation is over
 	// batchBind: the entries of the batch are added with Batch.Bind (values come from a
 	// binding callback); batchBindNamed: the callback returns named values, which a BATCH
 	// cannot carry (protocol 3+): the request must be refused, nothing may be sent
@@ -591,6 +592,10 @@ func wireGenOp(k *kernel.Kernel, token string, proto int) *wireOp {
 	if tp.Chance(1, 5) {
 		op.trace = true
 		k.Fault("req.tracing")
+	}
+	if op.kind != "batch" && tp.Chance(1, 3) {
+		op.release = true
+		k.Fault("req.query-released-afterwards")
 	}
 	switch op.kind {
 	case "query":
@@ -1149,6 +1154,11 @@ func wireRunOp(k *kernel.Kernel, sess *gocql.Session, op *wireOp, proto int, tra
 			info = &cp
 			return args, nil
 		})
+	}
+	if op.release {
+		// the caller hands the Query back when it is done with it (Query.Release): the
+		// session gives the object to a later Session.Query / Session.Bind, as new
+		defer q.Release()
 	}
 	q.Consistency(op.cons)
 	if op.serial != 0 {
